@@ -1244,7 +1244,7 @@ def _stage_why(stage, outs):
   return f'undecided in {stage}: {[(x.short()[:120], x.msg[:80], x.line) for x in outs]}'
 
 
-def _pipeline_multi(ctx, R, graphs, rules):
+def _pipeline_multi(ctx, R, graphs, rules, data=None):
   """Runs calibrate (one signature per subgraph, in order) -> plan ->
   instructions -> rewrite on a label model made of `graphs`. Returns
   (model Obj, None) or (None, reason)."""
@@ -1298,6 +1298,7 @@ def _pipeline_multi(ctx, R, graphs, rules):
       cnt *= s_
     return NdArr(shape, [((j * 5 + seed(n)) % 13) - 6 for j in range(cnt)])
   wts = {tspec(t)[0]: weight(owner(tspec(t)[0]), tspec(t)[2]) for g in graphs for t in g[0] if tspec(t)[1] == 1}
+  wts.update((data or {}).get('weights', {}))   # a rule may supply its own constants / runtime contents
   idx = {tspec(t)[0]: NdArr(tspec(t)[2], [1] * max(1, len(tspec(t)[2]) and __import__('functools').reduce(lambda a, b: a * b, tspec(t)[2], 1))) for g in graphs for t in g[0] if tspec(t)[1] == 'i'}
 
   def model():
@@ -1322,6 +1323,9 @@ def _pipeline_multi(ctx, R, graphs, rules):
   cur = {'k': 0}
 
   def content(n, k):
+    own = (data or {}).get('content')
+    if own is not None and own(n, k) is not None:
+      return own(n, k)
     return NdArr((1, 2), [k + seed(n), -2 * k - seed(n)])
 
   def details(a, k, kind=None):
@@ -1714,6 +1718,58 @@ def rule_blockwise_replacement(ctx, R: str, independence: bool = False):
         pr = well_formed(m, pos, named[c], c)
         ctx.check(R, not pr, tg.node, tg, f'{label}: subgraph "{c}" at position {pos}', '; '.join(pr[:3]))
   ctx.sample(R, {'cases': list(named) + ([] if independence else list(mixed)), 'refused (allowed by C01)': refused, 'models': 3})
+
+
+# ---------------------------------- weight and bias parameters on extreme data
+def rule_weight_bias_parameters(ctx, R: str):
+  """C04 on values chosen so that everything that could "help" the bias is tempting: a FULLY_CONNECTED under static
+  range (per-tensor and per-channel weights) whose first output channel has all-zero weights, with tiny activations and
+  an ordinary bias - the bias does not fit into 32 bits at input scale x weight scale. The property fixes the
+  parameters regardless: weight scale per channel = max(|min|, |max|, 1e-4) / 127 of that channel's TRUE min / max,
+  zero point 0; bias scale = input scale x weight scale, zero point 0, INT32."""
+  import fractions  # pylint: disable=g-import-not-at-top
+  from sa import consteval  # pylint: disable=g-import-not-at-top
+  from sa.consteval import Ext  # pylint: disable=g-import-not-at-top
+  from sa.ndarr import NdArr  # pylint: disable=g-import-not-at-top
+  rs = ctx.rule(R, 'weight scale = max(|min|,|max|,1e-4)/127 of the true per-channel range and bias scale = input scale x weight scale, also when the bias does not fit (zero channel, tiny activations)', floor=1)
+  tg = ctx.repo.func('transformation_performer:TransformationPerformer.transform_graph')
+  ctx.instance(R)
+  F = fractions.Fraction
+  TT = consteval.schema_enum('TensorType')
+  tv = lambda t: t.value if isinstance(t, Ext) else t
+  vals = lambda x: [float(v) for v in (x.data if isinstance(x, NdArr) else (x if isinstance(x, (list, tuple)) else [x]))]
+  g = ([('x', 0, (1, 2)), ('w', 1, (2, 2)), ('b', 1, (2,)), ('out', 0, (1, 2))], [('FULLY_CONNECTED', 'FULLY_CONNECTED', [0, 1, 2], [3])], [0], [3])
+  W = NdArr((2, 2), [0, 0, 3, -5])          # output channel 0 is all zero
+  Bv = NdArr((2,), [2, -1])
+  tiny = F(1, 10 ** 6)
+  data = {'weights': {'w': W, 'b': Bv}, 'content': lambda n, k: NdArr((1, 2), [tiny * k, -tiny * k], 'f') if n == 'x' else None}
+  rs.exhaustive = True
+  for mode in ('srq', 'srqc'):
+    m, why = _pipeline_multi(ctx, R, [g], [('.*', 'FULLY_CONNECTED', mode)], data=data)
+    label = f'FULLY_CONNECTED {"per-channel" if mode == "srqc" else "per-tensor"} weights, zero channel, activations of 1e-6, bias [2, -1]'
+    if m is None:
+      ctx.check(R, False, tg.node, tg, label, why)
+      continue
+    sg = m.fields['subgraphs'][0]
+    T = sg.fields['tensors']
+    op = next((o for o in sg.fields['operators'] if o.fields['label'] == 'FULLY_CONNECTED'), None)
+    if op is None or len(op.fields['inputs']) != 3:
+      ctx.check(R, False, tg.node, tg, label, 'the operator or one of its operands disappeared')
+      continue
+    xi, wi, bi = op.fields['inputs']
+    try:
+      xs, ws, bs = vals(T[xi].fields['quantization'].fields['scale']), vals(T[wi].fields['quantization'].fields['scale']), vals(T[bi].fields['quantization'].fields['scale'])
+      wz, bz = vals(T[wi].fields['quantization'].fields['zeroPoint']), vals(T[bi].fields['quantization'].fields['zeroPoint'])
+    except (AttributeError, TypeError):
+      ctx.check(R, False, tg.node, tg, label, 'not decided: scales of input / weight / bias are not folded')
+      continue
+    want_w = [max(0.0, 0.0, 1e-4) / 127, 5 / 127] if mode == 'srqc' else [5 / 127]
+    close = lambda a, b: len(a) == len(b) and all(abs(x - y) <= 1e-9 * max(abs(y), 1e-30) for x, y in zip(a, b))
+    ctx.check(R, close(ws, want_w) and all(z == 0 for z in wz), tg.node, tg, f'{label}: weight scale {ws}, zero point {wz}',
+              f'the weight scale must be {want_w} (max(|min|, |max|, 1e-4) / 127 of the true range) with zero point 0 - whatever the bias needs')
+    want_b = [xs[0] * w for w in ws] if len(ws) > 1 else [xs[0] * ws[0]] * len(bs)
+    ctx.check(R, close(bs, want_b) and all(z == 0 for z in bz) and tv(T[bi].fields['type']) == TT['INT32'], tg.node, tg, f'{label}: bias scale {bs}',
+              f'the bias must be INT32 with zero point 0 and scale input scale x weight scale = {want_b}')
 
 
 # ------------------------------------------- tied constants through the pipeline
